@@ -216,6 +216,13 @@ def install(ctx, repo, probes):
         pts, complete = _members(ctx, repo, rec)
         insts = _member_insts(ctx, repo, rec, pts)
         ip = inst(p)
+        if ip.denominator != 1:
+            # the property quantifies get_first_after over whole-second
+            # probes only (the library floors the sub-second part of the
+            # probe's distance: R/2020-01-01T00Z/PT1H after 00:30:00,25Z
+            # gives 01:00:00,25Z; outside C13, see DESIGN.md section 7)
+            ctx.ev("first_after.sub-second-probe-out-of-scope")
+            return
         later = [m for m, im in zip(pts, insts) if im > ip]
         if later:
             want = later[0]
@@ -256,7 +263,7 @@ def install(ctx, repo, probes):
             else:
                 ctx.cls("first_after/between")
     probes.wrap(TR, "get_first_after", post_first_after)
-    ctx.target("is_valid/True", "is_valid/False", "getitem/in", "getitem/out",
+    ctx.target("probe/sub-second-near-miss", "is_valid/True", "is_valid/False", "getitem/in", "getitem/out",
                "next/member", "next/none", "prev/member", "prev/none",
                "first_after/none", "first_after/last-member",
                "first_after/before-series", "first_after/on-member",
@@ -293,7 +300,7 @@ def _kwargs_of(p):
 def run_case(ctx, repo, case):
     desc = case["desc"]
     mode = desc["mode"]
-    repo.set_mode(mode)
+    repo.set_mode(mode, case)
     try:
         try:
             rec = recgen.build(repo, desc)
@@ -344,6 +351,15 @@ def run_case(ctx, repo, case):
                 kw["minute_of_hour_decimal"] = s_ / 60.0
                 if s_ % 15 == 0:
                     probes.append(kw)
+        # near misses: a fraction of a second beside a member (the decimal
+        # second is a multiple of 1/4, so the arithmetic stays exact)
+        for i in insts[:3] + insts[-2:]:
+            for base, frac in ((i, 0.25), (i - 1, 0.5), (i, 0.5),
+                               (i - 1, 0.75)):
+                kw = gen.tp_from_instant(rng, mode, base, allow_2400=False)
+                kw["second_of_minute_decimal"] = frac
+                probes.append(kw)
+                ctx.cls("probe/sub-second-near-miss")
         for kw in probes:
             p = repo.tp(kw)
             try:
